@@ -67,7 +67,7 @@ fn step_mul_ii() { let a: i64 = kani::any(); let b: i64 = kani::any();
         Some(e) => assert!(matches!(r, Number::Integer(v) if v == e), "Integer(exact result) whenever it fits"),
         None => assert!(matches!(r, Number::Float(_)), "otherwise a Float - never a wrapped Integer"),
     }, None => assert!(false, "never Err") } }
-// @obligation owners=C09 fn=eval_number::ast::eval/Multiply(Integer,Integer) tier=thorough
+// @obligation owners=C09 fn=eval_number::ast::eval/Multiply(Integer,Integer) tier=open
 #[kani::proof]
 fn step_mul_ii_float_value() { let a: i64 = kani::any(); let b: i64 = kani::any(); kani::assume(a.checked_mul(b).is_none());
     match ok(eval(Node::Multiply(int(a), int(b)))) { Some(r) => assert!(matches!(r, Number::Float(f) if same(f, (a as f64) * (b as f64))), "the Float of the operands' double values"), None => assert!(false, "never Err") } }
@@ -83,7 +83,7 @@ fn step_add_f() { let x = any_num(); let y = any_num();
 fn step_sub_f() { let x = any_num(); let y = any_num();
     kani::assume(matches!(x, Number::Float(_)) || matches!(y, Number::Float(_)));
     match ok(eval(Node::Subtract(leaf(&x), leaf(&y)))) { Some(r) => assert!(has_value(&r, val(&x) - val(&y)), "IEEE operation on the operands' values"), None => assert!(false, "never Err") } }
-// @obligation owners=C09,C15 fn=eval_number::ast::eval/Multiply(Float,_) tier=thorough
+// @obligation owners=C09,C15 fn=eval_number::ast::eval/Multiply(Float,_) tier=open
 #[kani::proof]
 fn step_mul_f() { let x = any_num(); let y = any_num();
     kani::assume(matches!(x, Number::Float(_)) || matches!(y, Number::Float(_)));
